@@ -550,6 +550,30 @@ impl ArcWake for TaskWaker {
     }
 }
 
+/// Waker handed out by single polls (`PollOnce`, `PollNext`): like `now_or_never`, it wakes nobody.  Whoever waits
+/// later with a real waker must be woken through that one, not through this stale one.
+pub struct FlagWaker {
+    pub handle: Option<usize>,
+}
+
+impl ArcWake for FlagWaker {
+    fn wake_by_ref(arc_self: &Arc<Self>) {
+        if !rt::kernel::in_sim() {
+            return;
+        }
+        if let Some(h) = arc_self.handle {
+            let world = w();
+            if h < world.hrec.len() {
+                world.hrec[h].wakes += 1;
+            }
+        }
+    }
+}
+
+pub fn flag_waker(handle: Option<usize>) -> Waker {
+    futures::task::waker(Arc::new(FlagWaker { handle }))
+}
+
 pub fn task_waker(handle: Option<usize>) -> Waker {
     futures::task::waker(Arc::new(TaskWaker { thread: rt::thread::current(), handle }))
 }
